@@ -79,6 +79,9 @@ def _confirm(prop, hit):
     return dict(hit, obs=_trim(obs), what=again[0].get("what", hit["what"]) + " [confirmed with 5x time and 20x step limits]")
 
 
+_SHRINK_DEADLINE = None
+
+
 def _shrink(prop, stream_name, hit, max_rounds=60):
     """Greedy shrinking of a monitor hit: keep a candidate iff the monitor still reports the same key."""
     sm = C.load_stream(stream_name)
@@ -87,7 +90,12 @@ def _shrink(prop, stream_name, hit, max_rounds=60):
     best = hit
     rounds = 0
     improved = True
-    t_end = time.time() + float(os.environ.get("VERIF_SHRINK_BUDGET_S", "120"))
+    # per-hit budget, and one budget for all hits of a run (a seeded non-termination makes every candidate run into the
+    # per-case alarm: without the overall cap a run with many distinct keys takes tens of minutes)
+    global _SHRINK_DEADLINE
+    if _SHRINK_DEADLINE is None:
+        _SHRINK_DEADLINE = time.time() + float(os.environ.get("VERIF_SHRINK_TOTAL_S", "420"))
+    t_end = min(time.time() + float(os.environ.get("VERIF_SHRINK_BUDGET_S", "120")), _SHRINK_DEADLINE)
     while improved and rounds < max_rounds and time.time() < t_end:
         improved = False
         rounds += 1
